@@ -55,7 +55,7 @@ type c12Obs struct {
 	MaxRefs   int       `json:"max_refs"`
 	Static    bool      `json:"static_ok"`       // scparser.IsScriptCorrect(script, nil) == nil
 	Abandoned bool      `json:"abandoned_stack"` // an exception unwound a script context whose own evaluation stack was not empty
-	F57Only   bool      `json:"f57_only"`        // the counter exceeds the walk by exactly what is on such abandoned stacks (finding F57), nothing else is wrong
+	F58Only   bool      `json:"f58_only"`        // the counter exceeds the walk by exactly what is on such abandoned stacks (finding F58), nothing else is wrong
 	F50Shape  bool      `json:"f50_shape"`       // a REMOVE on a Map entry whose value reaches the map itself was executed (finding F50)
 }
 
@@ -113,7 +113,7 @@ func c12Exec(co *caseOut, kind string, in c12Input) (c12Obs, bool) {
 		case !obs.EverCyc && refs != wa.total:
 			bad = fmt.Sprintf("%s: item counter not exact although no cycle was built: refs=%d, reachable=%d (with the stacks abandoned by exceptions: %d)", where, refs, w.total, wa.total)
 		case !obs.EverCyc && refs != w.total:
-			obs.F57Only = true
+			obs.F58Only = true
 			bad = fmt.Sprintf("%s: item counter not exact although no cycle was built: refs=%d, reachable=%d; the difference is exactly what is on the evaluation stacks of scripts abandoned by an exception", where, refs, w.total)
 		case refs > vm.MaxStackSize:
 			bad = fmt.Sprintf("%s: refs=%d exceeds MaxStackSize in a running VM", where, refs)
@@ -150,7 +150,7 @@ func c12Exec(co *caseOut, kind string, in c12Input) (c12Obs, bool) {
 			}
 			prevStacks, prevOp = cur, op
 		}
-		if len(obs.Refs) < c12TraceMax && !obs.Abandoned { // (after an abandonment the unrepaired counter differs from the model's: F57) // (since the repair F50 is in the tree the trace is compared through REMOVE cascades too)
+		if len(obs.Refs) < c12TraceMax && !obs.Abandoned { // (after an abandonment the unrepaired counter differs from the model's: F58) // (since the repair F50 is in the tree the trace is compared through REMOVE cascades too)
 			obs.Refs = append(obs.Refs, v.VerifRefs())
 		}
 		if obs.Static && bad == "" && off != len(script) && !bounds[off] {
